@@ -3,6 +3,10 @@
 from fractions import Fraction
 
 
+# non-polynomial atoms (max/min of polynomials): symbol name -> (function name, [Poly args])
+FUNC_ATOMS = {}
+
+
 class Poly:
     __slots__ = ("t",)
 
@@ -60,6 +64,30 @@ class Poly:
     def degree(self):
         return max((len(k) for k in self.t), default=0)
 
+    @staticmethod
+    def func(name, args):
+        """max/min of polynomials as an opaque atom that folds once its arguments are constant"""
+        args = [lift(a) for a in args]
+        if all(a.is_const() for a in args):
+            return Poly.const({"max": max, "min": min}[name](a.value() for a in args))
+        sym = f"{name}({', '.join(repr(a) for a in args)})"
+        FUNC_ATOMS[sym] = (name, args)
+        return Poly.sym(sym)
+
+    def has_func_atoms(self):
+        return any(s in FUNC_ATOMS for s in self.symbols())
+
+    def plain_symbols(self):
+        """ordinary symbols, looking inside max/min atoms"""
+        out = set()
+        for s in self.symbols():
+            if s in FUNC_ATOMS:
+                for a in FUNC_ATOMS[s][1]:
+                    out |= set(a.plain_symbols())
+            else:
+                out.add(s)
+        return sorted(out)
+
     def subs(self, mapping):
         """mapping: symbol -> Poly|int|new symbol name"""
         out = Poly()
@@ -67,7 +95,10 @@ class Poly:
             term = Poly.const(v)
             for s in k:
                 r = mapping.get(s, None)
-                if r is None:
+                if r is None and s in FUNC_ATOMS:
+                    name, args = FUNC_ATOMS[s]
+                    r = Poly.func(name, [a.subs(mapping) for a in args])
+                elif r is None:
                     r = Poly.sym(s)
                 elif isinstance(r, str):
                     r = Poly.sym(r)
